@@ -1048,6 +1048,11 @@ def c01_with_replay(ctx):
     fams = ("chunks", "trunc", "pipeline") if not ctx.quick else ("chunks", "trunc")
     for fam in fams:
         replay_behaviours(ctx, fam, 150 if ctx.quick else 1500)
+    # the connection-level loop (specs/KeepAlive.tla): what reaches the application over the life of a connection, with
+    # the keep-alive time running out between and inside requests and a stop request at every point
+    from props import keepalive
+    keepalive.design(ctx)
+    keepalive.model_traces(ctx, {"PhantomRequest", "ExceptionEscapedHandle", "ConnectionLeftOpen"}, "C01")
 
 
 CHECKS["C01"] = c01_with_replay
